@@ -51,7 +51,6 @@ Fixpoint spec_from (h : bool) (i : N) (ref que : list N) : list snp :=
 
 (* SPEC of the whole command: the records of the two files (symbols kept as written, a byte
    outside the alphabet refused), one row per record in input order from spec_from. *)
-Definition conv_raw (c : N) : option N := if valid c then Some c else None.
 Fixpoint spec_rows (h : bool) (refseq : list N) (recs : list rcd) : res (list N) :=
   match recs with
   | [] => Ok []
